@@ -277,6 +277,8 @@ class BoolClient(Client):
         return state
 
     def stmt(self, st, state):
+        if isinstance(st, (ast.Expr, ast.Assign, ast.AugAssign, ast.AnnAssign)) and self.raises(st, state):
+            return []       # the look-up raises for what the state knows: there is no normal successor
         state = self.note_keeps(st, state) if isinstance(st, (ast.Expr, ast.Assign)) else state
         if isinstance(st, ast.Assign) and len(st.targets) == 1 and isinstance(st.targets[0], (ast.Tuple, ast.List)) \
                 and all(isinstance(t, ast.Name) for t in st.targets[0].elts):
@@ -312,6 +314,8 @@ class BoolClient(Client):
         return [state]
 
     def atom_branch(self, test, state):
+        if self.raises(test, state):
+            return [], []
         hit = self.callee_of(test, state)
         if hit is not None:
             ts, fs = [], []
@@ -489,13 +493,20 @@ def run(repo, rep):
     # which reassembly buffer a fragment goes to, per value of the control header: evaluated, not read off the tests
     p1 = []
     cmd_buf = None
-    for hf in repo.helper_closure(proc):
-        for n in ast.walk(hf.node):
-            if isinstance(n, ast.Call) and norm(n.func) == 'dsutils.decode' and n.args:
-                for x in ast.walk(n.args[0]):
-                    ch = attr_chain(x) if isinstance(x, ast.Attribute) else None
-                    if ch and len(ch) == 2 and ch[0] == 'self':
-                        cmd_buf = ch[1]
+    # the buffer whose joined content is decoded as the command set -- by provenance, so that it may pass through locals
+    cb = SymClient(repo, proc, event_of=lambda call, callee, *_: 'dsdecode' if callee == 'dsutils.decode' else None,
+                   hierarchy=hier, inline=repo.is_helper)
+    cb.run(empty_state())
+    for e_, _s in cb.log:
+        if e_.kind == 'dsdecode' and e_.args:
+            try:
+                a0 = ast.parse(e_.args[0], mode='eval').body
+            except SyntaxError:
+                continue
+            for x in ast.walk(a0):
+                ch = attr_chain(x) if isinstance(x, ast.Attribute) else None
+                if ch and len(ch) == 2 and ch[0] == 'self':
+                    cmd_buf = ch[1]
     if cmd_buf is None:
         raise AnalysisError('%s: the buffer the command set is decoded from was not found' % proc.loc())
     for marker in (0, 1, 2, 3):
